@@ -70,6 +70,7 @@ def gen(name, tiers, c, ov, coins, **kw):
 
 MIG_GEN = [
     gen("devOne", D, consts(**ONE, stake=2, ticks=1), STD, "CoinsStd", shards=8, rej_sample=4, explore=2),
+    gen("devStaked", D, consts(**STAKED, stake=2), STD, "CoinsStd", shards=4, rej_sample=4, explore=2),
     gen("devGov", D, consts(**GOV2, props=1, govops=3), GOVC, "CoinsGov", shards=8, rej_sample=4, explore=2),
     # quick: rejected operations sampled per state
     gen("qOne", Q, consts(**ONE, stake=4, ticks=1), STD, "CoinsStd", shards=14, rej_sample=6, explore=2),
@@ -81,8 +82,8 @@ MIG_GEN = [
     gen("tShared", T, consts(**SHARED, stake=6, ticks=1), STD, "CoinsStd", shards=16, rej_sample=0, explore=3),
     gen("tAll", T, consts(**ALL, stake=3, ticks=1), STD, "CoinsStd", shards=16, rej_sample=0, explore=3),
     gen("tStaked", T, consts(**STAKED, stake=4), STD, "CoinsStd", shards=8, rej_sample=0, explore=3),
-    gen("tGov", T, consts(**GOV3, props=2, govops=6), GOVC, "CoinsGov", shards=16, rej_sample=0, explore=3),
-    gen("tMixed", T, consts(**MIXED, stake=3, ticks=1, props=1, govops=4), STD, "CoinsStd", shards=16, rej_sample=0, explore=3),
+    gen("tGov", T, consts(**GOV3, props=2, govops=5), GOVC, "CoinsGov", shards=16, rej_sample=0, explore=3),
+    gen("tMixed", T, consts(**MIXED, stake=2, ticks=1, props=1, govops=4), STD, "CoinsStd", shards=16, rej_sample=0, explore=3),
 ]
 
 ASSUMPTIONS = [
